@@ -172,14 +172,13 @@ func (r *runner) fixtures() {
 		post0132 := !ver.LessThan(core.Ver0_13_2)
 		meta := net.BlockHashMetaInfo
 		inUnverifiable := meta.UnverifiableRange != nil && b.Block.Number >= meta.UnverifiableRange[0] && b.Block.Number <= meta.UnverifiableRange[1]
+		pre07 := !post0132 && b.Block.Number < meta.First07Block
+		b.Pre07 = pre07
 		switch {
-		case !post0132 && b.Block.Number < meta.First07Block:
-			stats["block:pre-0.7-format(outside model)"]++
-			continue
 		case inUnverifiable:
 			stats["block:unverifiable-range(outside model)"]++
 			continue
-		case b.Block.SequencerAddress == nil:
+		case b.Block.SequencerAddress == nil && !pre07:
 			stats["block:no-sequencer-address(fallback, outside model)"]++
 			continue
 		}
@@ -188,6 +187,10 @@ func (r *runner) fixtures() {
 			continue
 		}
 		mh := askBlock(r.or, b.Block, b.Update.StateDiff)
+		if pre07 {
+			mh.BH, mh.HasBH = askBlock07(r.or, b.Block, b.Update.StateDiff, net), true
+			verStr = "pre-0.7"
+		}
 		// commitments in the feeder response (for blocks older than 0.13.2 the feeder serves commitments recomputed
 		// in the later Poseidon format, not the ones inside the block hash: compared only from 0.13.2 on)
 		if post0132 && nz(resp.TransactionCommitment) && !resp.TransactionCommitment.Equal(&mh.TxC) {
@@ -268,6 +271,7 @@ func (r *runner) fixtures() {
 		}
 		for _, name := range names {
 			t, _, _ := fx.parse()
+			t.Pre07 = pre07
 			if carvedOut(t, name) {
 				continue
 			}
